@@ -460,6 +460,20 @@ pub fn scenario_sibling_parents(sats: bool) -> Line {
   g.line()
 }
 
+/// the jubilee boundary on regtest (110): the same reveal (two envelopes in one input: the second is not at offset
+/// zero) at heights 109, 110 and 111: cursed with a negative number below the jubilee, vindicated and blessed from
+/// exactly the jubilee height on. (testnet4's jubilee is 0: every height is jubilant, the genesis block reveals nothing.)
+pub fn scenario_jubilee() -> Line {
+  let mut g = Gen::new(0, false, 109);
+  for k in 0..3u64 {
+    g.block(
+      vec![TxPlan { kinds: vec![], ins: vec![(2 + k, 0)], outs: vec![(SUBSIDY, false)], recipes: vec![clean_recipe(0), clean_recipe(0)] }],
+      vec![(SUBSIDY, false)],
+    );
+  }
+  g.line()
+}
+
 /// output scripts: a reveal whose three inscriptions land (pointers) on an OP_RESERVED.. output, an
 /// `OP_1 OP_RETURN ..` output and an `OP_RETURN data` output; then the first two are moved (fifo) onto an
 /// invalid-opcode output and an empty script. Burned exactly for the script whose first byte is OP_RETURN.
@@ -492,6 +506,7 @@ pub fn generate(prop: &str, rng: &mut Rng, tier: &str) -> Vec<Line> {
     scenario_mixed(false, 1),
     scenario_sibling_parents(false),
     scenario_scripts(true),
+    scenario_jubilee(),
   ];
   for _ in 0..n {
     v.push(random_chain(prop, rng));
